@@ -4,6 +4,7 @@ import Knee.Model.Mapping
 import Knee.Model.RdpM
 import Knee.Model.Filters
 import Knee.Model.PostM
+import Knee.Model.DetectM
 /-
 Correspondence driver.  `lake env lean --run Driver.lean` (or the compiled `driver` exe).
 Harness → driver : `CALL <fn> <arg> <arg> …`
@@ -47,6 +48,27 @@ def oKey (out inp : IO.FS.Stream) (l r i : Nat) : M (Rat × Rat) := askPair out 
 def oAccept (out inp : IO.FS.Stream) (isR2 : Bool) (t : Rat) (red : List Nat) : M Bool := do
   let g ← askRat out inp s!"gcs {showNats red}"
   pure (!curved isR2 t g)
+
+def parseMode (s : String) : Refinement :=
+  if s == "original" then .original else if s == "none" then .none else .adjusted
+
+/-- detector on the sub-curve `[l, r)`; all criterion arrays are oracle answers -/
+def detM (out inp : IO.FS.Stream) (kind : String) (mode : Refinement) (limit : Nat) (l r : Nat) : M (Option Nat) := do
+  match kind with
+  | "curvature" => do
+    let c ← askRats out inp s!"crit {l} {r}"
+    pure (some (curvKnee c))
+  | "menger" => do
+    let c ← askRats out inp s!"mc {l} {r}"
+    pure (some (mengerKnee c))
+  | "dfdt" => do
+    let k ← dfdtKneeM (fun c => askRats out inp s!"diffs {l} {r} {c}") (r - l)
+    pure (some k)
+  | "lmethod" => lmethodKneeM (fun len => askRats out inp s!"errs {l} {r} {len}") mode (r - l) limit
+  | "kneedle" => do
+    let d ← askRats out inp s!"dd {l} {r}"
+    pure (kneedleKnee d)
+  | _ => throw "unknown detector"
 
 def dispatch (out inp : IO.FS.Stream) (fn : String) (args : List String) : M String := do
   match fn, args with
@@ -141,6 +163,25 @@ def dispatch (out inp : IO.FS.Stream) (fn : String) (args : List String) : M Str
     let ne ← orErr (parseNat? ne) "ne"
     let r ← cmM (fun e => askRats out inp s!"row {e}") t n nk ne
     pure s!"{r.1} {r.2.1} {r.2.2.1} {r.2.2.2}"
+  | "knee", [kind, n, mode, limit] =>
+    let n ← orErr (parseNat? n) "n"
+    let limit ← orErr (parseNat? limit) "limit"
+    let r ← detM out inp kind (parseMode mode) limit 0 n
+    match r with
+    | some k => pure (toString k)
+    | none => pure "none"
+  | "multi_knee", [kind, t1, t2, n] =>
+    let t1 ← orErr (parseRat? t1) "t1"
+    let t2 ← orErr (parseNat? t2) "t2"
+    let n ← orErr (parseNat? n) "n"
+    let gate := fun (l r : Nat) => (do
+      if r - l ≤ 2 then pure (decide (t1 ≤ 1)) else do
+        let v ← askRat out inp s!"sm {l} {r}"
+        pure (decide (t1 ≤ v)) : M Bool)
+    let r ← multiKneeM (detM out inp kind .adjusted 10) gate t2 n
+    match r with
+    | some ks => pure (showNats ks)
+    | none => pure "none"
   | _, _ => throw s!"unknown call {fn}/{args.length}"
 
 partial def loop (out inp : IO.FS.Stream) : IO Unit := do
